@@ -109,7 +109,7 @@ def comparator(ctx, rid_override):
     pairs = symmetric_pairs(fn)
     for l, r, kind in pairs:
         descend_pair(N, l, r, covered)
-    ctx.count("symmetric operand pairs in the comparator", len(pairs), 30)
+    ctx.count("symmetric operand pairs in the comparator", len(pairs), 21)
     # calc_params: extend() on both sides with the respective type_params
     ext = [n for n in walk(fn["body"]) if n.get("k") == "MethodCall" and cshort(n.get("callee", "")) == "GenericsList::extend"]
     roots = set()
